@@ -7,6 +7,18 @@ VERIF = Path(__file__).resolve().parent.parent
 HOOK_COMMITS: list[str] = []
 
 CLAIMED = {
+    "C18": dict(
+        category="model_checking",
+        text=("Introspect.tla specifies IntroGraph(S) - what the introspection types must present for an abstract schema (kinds, fields with arguments, "
+              "interfaces, possibleTypes, enum values, input fields, parsed default values, isOneOf, specifiedByURL, isRepeatable, roots, description) - and "
+              "Project(full, opts) - the full-options result minus exactly the attributes and deprecated input values each switched-off option omits. For "
+              "seeded schemas (SDL and programmatic routes) the standard introspection query is validated and executed under all 2^7 option combinations; "
+              "TLC checks every result against Project of the full result and the user-defined part of the full result against IntroGraph(S). Python checks "
+              "__type(name:) against the type list and that build_client_schema(full) prints identically, shows no changes and introspects to the same result."),
+        design_ref="DESIGN.md 5/C18",
+        note="Built-in scalars, introspection types and specified directives are not compared with IntroGraph; defaultValue strings are parsed back before comparison; ad-hoc introspection selections are not generated yet.",
+        technique="TLC evaluation of recorded introspection results against Introspect.tla (IntroGraph, Project over 128 option combinations)",
+    ),
     "C19": dict(
         category="model_checking",
         text=("SchemaAlgebra.tla specifies the effect of an extension (ApplyExt: entries appended in document order, nothing else changes) and the "
